@@ -1,4 +1,4 @@
-import Hive.Proofs.BatchWriterLive
+import Hive.Proofs.BatchWriterProgress
 import Hive.Gen.C08_Skel
 /-!
 # C08 — BatchedWriter never loses or half-writes an enqueued object
@@ -113,13 +113,11 @@ theorem C08_late_enqueue_backs_out {q b : Nat} {c0 c : Cfg St Thread} (h0 : Init
   rw [← hi.cnt.win]
   exact hi.l.fin_win (Or.inr hex)
 
-/-- **No call blocks for ever** (partial).  Proved, for every reachable configuration: no deadlock — whenever
-some Enqueue / Stop / Flush call is unfinished, some thread can move; in particular a producer blocked on the
-full queue implies the writer goroutine is alive (it has counted itself before the writer could leave), and
-Stop blocked in `Wait` implies the writer is alive or about to be started.  Missing for the full statement
-(third clause of `C08_statement`): the step from "no deadlock" to "every blocked call eventually moves under
-fair scheduling" (a variant argument over queue length, batch progress and remaining scripts) is not
-formalised. -/
+/-- **No deadlock** (the weaker, global form of the third clause; the per-call form is `C08_no_block_forever`
+below).  For every reachable configuration: whenever some Enqueue / Stop / Flush call is unfinished, some thread
+can move; in particular a producer blocked on the full queue implies the writer goroutine is alive (it has
+counted itself before the writer could leave), and Stop blocked in `Wait` implies the writer is alive or about
+to be started.  (The name keeps its historic `_partial`: it was the proved part before `C08_no_block_forever`.) -/
 theorem C08_no_block_forever_partial {q b : Nat} {c0 c : Cfg St Thread} (h0 : Init q b c0)
     (hw : Thread.writer ∈ c0.2) (hr : Reach sys c0 c) :
     ¬ Deadlock sys (fun t => t.finished = true) c :=
@@ -132,11 +130,9 @@ goroutine (0).  Whoever is blocked at rank `r` waits for a thread that can move 
 lower rank, and the writer can move whenever somebody waits for it.  So every blocked call reaches, in at most
 three hops, a thread that can move; in particular the thread inside the Once body may wait for the mutex but no
 holder of the mutex ever waits for the Once (the order a `StopBatchWriter` that touched the Once under the
-mutex would invert).  This is the per-call strengthening of `C08_no_block_forever_partial`; what is still
-missing for the third clause of `C08_statement` is the variant argument that the thread at the end of the chain
-releases the resource after finitely many of its own steps (start sequence: ≤ 9 steps; Stop's critical section:
-needs the writer to terminate; the writer: each loop iteration ends after at most batch-size receives, and the
-counter it waits for is released by producers whose remaining steps are bounded once the queue has room). -/
+mutex would invert).  This is the per-call strengthening of `C08_no_block_forever_partial`; the variant argument
+that the thread at the end of the chain releases the resource after finitely many steps is `C08_no_block_forever`
+(measures `odist`, `hdist`, `drainMeasure`, `exitDist`, `wdist` in `Proofs/BatchWriterProgress.lean`). -/
 theorem C08_waits_for_ranked {q b : Nat} {c0 c : Cfg St Thread} (h0 : Init q b c0) (hr : Reach sys c0 c) :
     (∀ t ∈ c.2, t.finished = false →
       Enabled c.1 t ∨ BlockedOnOnce c.1 t ∨ BlockedOnMutex c.1 t ∨ BlockedOnWait c.1 t ∨ BlockedOnQueue c.1 t) ∧
@@ -178,6 +174,69 @@ theorem C08_statement_safety {q b : Nat} {c0 c : Cfg St Thread} (h0 : Init q b c
   have := C08_racing_enqueue_all_or_nothing h0 hr hex
   simp only [okFinal, C08_ok h0 hr, Bool.true_and] at this
   exact this
+
+/-- **No Enqueue or Stop call blocks for ever** (third clause, full strength).  From every reachable
+configuration — every queue size including 0, every batch size, every thread pool, every interleaving so far —
+and for every thread whose call is unfinished there is a continuation *in which that thread does not move* and
+after which it can take a step.  The continuation is constructed: a producer blocked on the queue send is
+released by the writer goroutine alone (it reaches a `select` in at most `wdist` steps and takes an object);
+a Stop caller inside `writeWg.Wait()` is released by draining (`drain_to_exit`: producers that have announced
+an object back out or hand it over, the writer receives, writes, commits, calls the Dones, sees `running = false`
+and the counter at 0 and leaves — well-founded descent on `drainMeasure` and `exitDist`; the counter cannot grow
+because only threads past their increment are scheduled); whoever waits for `startStopMutex` is released by its
+holder (`holder_releases`, through the previous case when the holder is a Stop in `Wait`); whoever waits for
+`autoStartOnce` is released by the thread inside the body (`once_completes`, through the previous case when that
+thread waits for the mutex).  This is "no blocked call is ever beyond rescue": under any scheduler that
+eventually runs the finitely many steps of such a continuation (e.g. a fair one: the measures bound the number
+of steps each helper thread needs, and none of the helper steps can be disabled by other threads' steps for
+ever) the call proceeds. -/
+theorem C08_no_block_forever {q b : Nat} {c0 c : Cfg St Thread} (h0 : Init q b c0) (hw : Thread.writer ∈ c0.2)
+    (hr : Reach sys c0 c) (i : Nat) (t : Thread) (hi : c.2[i]? = some t) (hnf : t.finished = false) :
+    ∃ c', Reach sys c c' ∧ c'.2[i]? = some t ∧ sys.step c'.1 t ≠ [] :=
+  unblocks h0 hw hr i t hi hnf
+
+/-- a configuration in which both Stop callers are blocked: Stop 0 inside `Wait` (the object is in `BatchWrite`),
+Stop 1 on the mutex -/
+def blockedCfg : Cfg St Thread :=
+  runSched sys (initSt 1 1, twoStopsThreads) (rep 0 15 ++ rep 3 6 ++ rep 1 4 ++ rep 2 1)
+
+set_option maxRecDepth 4000 in
+-- the hypotheses of `C08_no_block_forever` are satisfiable by really blocked calls
+example : Init 1 1 (initSt 1 1, twoStopsThreads) ∧ Thread.writer ∈ twoStopsThreads ∧
+    blockedCfg.2[1]? = some (.stopper 0 .wait) ∧ sys.step blockedCfg.1 (.stopper 0 .wait) = [] ∧
+    blockedCfg.2[2]? = some (.stopper 1 .lock) ∧ sys.step blockedCfg.1 (.stopper 1 .lock) = [] ∧
+    (Thread.stopper 1 .lock).finished = false :=
+  ⟨⟨rfl, by decide, by simp [distinctIds, twoStopsThreads, Thread.pid, List.filterMap_cons]⟩, by decide, by decide, by decide, by decide, by decide, by decide⟩
+
+/-- The two blocking calls, separately: a blocked queue send needs only the writer goroutine. -/
+theorem C08_enqueue_send_unblocked_by_writer {q b : Nat} {c0 : Cfg St Thread} (h0 : Init q b c0) {s : St}
+    {ts : List Thread} (hr : Reach sys c0 (s, ts)) (hw : Thread.writer ∈ ts) {id cur : Nat} {sc : List Nat}
+    (ht : Thread.prod id .send cur sc ∈ ts) :
+    ∃ s', Reach sys (s, ts) (s', ts) ∧ sys.step s' (Thread.prod id .send cur sc) ≠ [] :=
+  blocked_send_unblocks h0 hr hw ht
+
+/-- A Stop caller inside `writeWg.Wait()`: there is a continuation after which the WaitGroup counter is 0 (the
+writer goroutine has terminated), the Stop caller not having moved. -/
+theorem C08_stop_wait_released {q b : Nat} {c0 : Cfg St Thread} (h0 : Init q b c0) {s : St} {ts : List Thread}
+    (hr : Reach sys c0 (s, ts)) (hw : Thread.writer ∈ ts) {i id : Nat} (ht : ts[i]? = some (Thread.stopper id .wait)) :
+    ∃ s' ts', Reach sys (s, ts) (s', ts') ∧ ts'[i]? = some (Thread.stopper id .wait) ∧ s'.wg = 0 ∧ s'.wpc = .exited := by
+  have hrun := running_false_of_wait (inv_reach h0 hr) (List.mem_of_getElem? ht)
+  obtain ⟨s', ts', hr', ht', hwg, _, _⟩ := drain_to_exit h0 (drainMeasure s ts) s ts hr hw ht hrun (Nat.le_refl _)
+  refine ⟨s', ts', hr', ht', hwg, ?_⟩
+  have hi' := inv_reach h0 (hr.trans hr')
+  have h1 := hi'.l.wg
+  have h2 := (hi'.t _ (List.mem_of_getElem? ht')).2.2.1 rfl
+  simp only at h1 h2
+  by_cases hx : s'.wpc = .exited
+  · exact hx
+  · simp [h2, hx] at h1; omega
+
+/-- **The property at full strength holds for the repaired code.** -/
+theorem C08_statement_holds : C08_statement := by
+  intro q b c0 c _ h0 hw hr
+  refine ⟨C08_ok h0 hr, (C08_statement_safety h0 hr).2, fun i t hi hnf => ?_⟩
+  obtain ⟨c', hr', hi', hen⟩ := C08_no_block_forever h0 hw hr i t hi hnf
+  exact ⟨c', hr', t, hi', hen⟩
 
 /-! ### Non-vacuity: complete runs of the repaired model, among them the three formerly failing schedules -/
 
